@@ -30,7 +30,9 @@ CFG = """CONSTANTS
   NE = %(NE)d
   MaxAborts = %(MaxAborts)d
   MaxRestarts = %(MaxRestarts)d
-  SeeInFlight = %(SeeInFlight)s
+  MaxInFlight = %(MaxInFlight)d
+  WalkWindow = %(WalkWindow)d
+%(more)s  SeeInFlight = %(SeeInFlight)s
   BoundPre = %(BoundPre)s
   FrontLt = %(FrontLt)s
   UnlockOnPartial = %(UnlockOnPartial)s
@@ -40,7 +42,7 @@ CFG = """CONSTANTS
   FineWalk = %(FineWalk)s
   Primed = %(Primed)s
   EmitTerminal = %(EmitTerminal)s
-SPECIFICATION Spec
+SPECIFICATION %(spec)s
 INVARIANTS %(inv)s
 %(view)s
 CHECK_DEADLOCK FALSE
@@ -55,7 +57,8 @@ def tf(b):
 
 
 def cfg(**kw):
-    d = dict(M=2, F=2, NW=3, Shapes="min", MaxTrunc=1, NT=1, MaxExports=0, NE=1, MaxAborts=0, MaxRestarts=0,
+    d = dict(M=2, F=2, NW=3, Shapes="min", MaxTrunc=1, NT=1, MaxExports=0, NE=1, MaxAborts=0, MaxRestarts=0, MaxInFlight=0, WalkWindow=0,
+             more="", spec="Spec",
              SplitCommit=Fa, Atomic=Fa, FineWalk=Fa, Primed=Fa, EmitTerminal=Fa, inv=ALLINV, view="VIEW View")
     d.update(DESIGN)
     d.update(kw)
@@ -84,15 +87,16 @@ def run(chk, args):
     job("design two concurrent truncations", "must-pass", dict(NW=3 if big else 2, Shapes="min", MaxTrunc=2, NT=2, FineWalk=tf(big)), workers=4 if big else 3, timeout=1700)
     job("design export x truncation x restart", "must-pass",
         dict(NW=2, Shapes="std" if big else "exp", MaxTrunc=1, MaxExports=2 if big else 1, NE=2 if big else 1, MaxRestarts=1), timeout=1700)
-    job("design three value logs", "must-pass", dict(M=3, NW=3, Shapes="min" if big else "unit", MaxTrunc=2 if big else 1), timeout=1700)
+    if big:    # (quick: three value logs are covered by the replayed simulations only)
+        job("design three value logs", "must-pass", dict(M=3, NW=3, Shapes="min", MaxTrunc=2), timeout=1700)
     if big:
         job("design empty values, two-entry txs, walks one tx per step", "must-pass", dict(NW=3, Shapes="std", MaxTrunc=2, SplitCommit=T, FineWalk=T), workers=5, timeout=1700)
         job("design five txs, one value log", "must-pass", dict(M=1, NW=5, Shapes="min", MaxTrunc=2), workers=5, timeout=1700)
         job("design five txs, two value logs", "must-pass", dict(NW=5, Shapes="unit", MaxTrunc=1), workers=4, timeout=1700)
         job("design chunk of three values", "must-pass", dict(F=3, NW=3, Shapes="std", MaxTrunc=2), timeout=1700)
     # code as transcribed, same bounds (a counterexample is a candidate, decided on the real store below)
-    job("code two concurrent truncations", "code", dict(code, NW=2, Shapes="min", MaxTrunc=2, NT=2, inv="TypeOK NoLockCycle"))
     if big:
+        job("code two concurrent truncations", "code", dict(code, NW=2, Shapes="min", MaxTrunc=2, NT=2, inv="TypeOK NoLockCycle"))
         job("code writers x truncation", "code", dict(code, NW=3, Shapes="min", MaxTrunc=1, SplitCommit=T, MaxAborts=1))
         job("code export x truncation x restart", "code", dict(code, NW=2, Shapes="std", MaxTrunc=1, MaxExports=2, MaxRestarts=1, inv="TypeOK ExportTerminates ExportFullFromCut"))
         # each half of the repair alone is not enough
@@ -106,11 +110,25 @@ def run(chk, args):
     job("replay: code, committer parked over the truncation", "cex", dict(code, NW=4, Shapes="min", Primed=T, Atomic=T))
     job("replay: code + in-flight values kept, pre-committed tx over the truncation", "cex",
         dict(code, SeeInFlight=T, NW=4, Shapes="min", Primed=T, Atomic=T, SplitCommit=T))
+    # the distance dimension (spec/TruncationDist.tla): a tx written early gets its id d = 1..D ids after the cut tx; D is larger
+    # than every option of the replayed stores that could be mistaken for a bound of the forward walk (MaxConcurrency 2..4,
+    # MaxActiveTransactions = MaxConcurrency + 1, MaxIOConcurrency 1..2)
+    D = 6 if thorough else 5
+    DINV = "TypeOK ReadableFromCut HeadersIntact Idempotent DistanceAsNamed DEmit"
+    for m in (1, 2):
+        job("distance family, %d value log(s), d = 1..%d" % (m, D), "dist",
+            dict(code, _module="TruncationDist", spec="DSpec", more="  D = %d\n" % D, M=m, NW=m + D + 1, Shapes="min", MaxRestarts=1,
+                 MaxInFlight=2, Primed=T, Atomic=T, inv=DINV, view=""), workers=1, timeout=900)
+    if big:
+        job("teeth: forward walk stops 2 txs past the cut (distance family)", "teeth:ReadableFromCut",
+            dict(code, _module="TruncationDist", spec="DSpec", more="  D = %d\n" % D, M=1, NW=D + 2, Shapes="min", MaxRestarts=1,
+                 MaxInFlight=2, WalkWindow=2, Primed=T, Atomic=T, inv=DINV.replace(" DEmit", ""), view=""), workers=1, timeout=900)
+        job("teeth: forward walk stops 1 tx past the cut", "teeth:ReadableFromCut", dict(WalkWindow=1, NW=3, Shapes="min"))
     # simulated behaviours of the code as transcribed
     num = 260 if thorough else 30
-    sims = [("sim two logs, split commit", dict(code, M=2, NW=6, Shapes="rich", MaxTrunc=2, MaxExports=2, MaxRestarts=1, MaxAborts=1, SplitCommit=T)),
+    sims = [("sim two logs, split commit", dict(code, M=2, NW=6, Shapes="rich", MaxTrunc=2, MaxExports=2, MaxRestarts=1, MaxAborts=1, SplitCommit=T, MaxInFlight=2)),
             ("sim three logs", dict(code, M=3, NW=7, Shapes="rich", MaxTrunc=2, MaxExports=1, MaxRestarts=1, MaxAborts=1)),
-            ("sim one log", dict(code, M=1, NW=5, Shapes="rich", MaxTrunc=2, MaxExports=1, MaxRestarts=1, MaxAborts=1)),
+            ("sim one log", dict(code, M=1, NW=5, Shapes="rich", MaxTrunc=2, MaxExports=1, MaxRestarts=1, MaxAborts=1, MaxInFlight=3)),
             ("sim two logs, chunk of three", dict(code, M=2, F=3, NW=6, Shapes="rich", MaxTrunc=3, MaxExports=1, SplitCommit=T))]
     if not thorough:
         sims = sims[:3]
@@ -122,7 +140,7 @@ def run(chk, args):
         name, kind, kw, workers, timeout, extra = j
         sub = os.path.join(wd, "tlc%d" % jobs.index(j))
         os.makedirs(sub)
-        return j, vlib.run_tlc("Truncation", "t.cfg", workdir=sub, workers=workers, timeout=timeout, extra=list(extra), files=[("t.cfg", cfg(**kw))])
+        return j, vlib.run_tlc(kw.get("_module", "Truncation"), "t.cfg", workdir=sub, workers=workers, timeout=timeout, extra=list(extra), files=[("t.cfg", cfg(**kw))])
 
     def harness(item):
         mode, a = item
@@ -169,6 +187,18 @@ def run(chk, args):
                     raise MachineryFault("cannot parse the counterexample of [%s]" % name)
                 schedules.append({"ops": st["hist"], "m": kw.get("M", 2), "f": kw.get("F", 2), "split": kw.get("SplitCommit") == T, "primed": True,
                                   "cut": st["cut"], "cuts": [], "origin": "tlc-counterexample:%s (%s)" % (res.violation, name)})
+        elif kind == "dist":
+            vlib.tlc_must_pass(res, "TruncationDist [%s]" % name)
+            got = {}
+            for b in vlib.printed_json(res.out):
+                got.setdefault((b["d"], b["lay"]), b)       # the order of the DiscardUpto calls does not matter: one per history
+            if {d for d, _ in got} != set(range(1, D + 1)):
+                raise MachineryFault("TruncationDist [%s]: distances %s instead of 1..%d" % (name, sorted({d for d, _ in got}), D))
+            for (d, lay), b in sorted(got.items()):
+                for mc in ((2, 3, 4) if thorough else (2, 3)):
+                    if not thorough and mc == 3 and d <= 3:
+                        continue                              # quick: MaxConcurrency 3 only where the distance exceeds it
+                    schedules.append(dict(b, mc=mc, origin="tlc-distance:d=%d,layout=%d,logs=%d,MaxConcurrency=%d" % (d, lay, b["m"], mc)))
         elif kind == "sim":
             if res.violation:
                 raise MachineryFault("Truncation [%s]: %s" % (name, res.violation))
@@ -195,7 +225,7 @@ def run(chk, args):
                 break
     sp = os.path.join(wd, "schedules.json")
     json.dump({"schedules": schedules, "unit": 32, "selftest": "value" if selftest == "1" else ""}, open(sp, "w"))
-    hres = dict([harness(("replay", ["-mode", "replay", "-schedules", sp, "-cuts", "1" if thorough else "3"]))] + [f.result() for f in hfut])
+    hres = dict([harness(("replay", ["-mode", "replay", "-schedules", sp, "-cuts", "1" if thorough else "4"]))] + [f.result() for f in hfut])
     drift = 0
     for mode, r in hres.items():
         c = r.get("counters") or {}
@@ -209,6 +239,7 @@ def run(chk, args):
     c = chk.cov.get("counters", {})
     need = ["placement-compared", "chunks-compared", "cut-points", "old-value:explicit-error", "old-value:still-served", "export:values",
             "export:digests", "export:error", "op:append(parked)", "op:commit", "op:restart", "op:DualProof", "op:Get", "repro:export-after-partially-truncated-tx",
+            "trunc:tx-beyond-MaxConcurrency-in-file-below-cut-file", "replica:early-written-tx-layouts"] + ["trunc:early-written-tx-at-distance:%d" % d for d in range(1, D + 1)] + [
             "db:truncations", "db:restart", "db:old-row-error", "db:row-served", "db:doc-served", "free:truncations", "race:each-call-held-one-log"]
     missing = [k for k in need if not c.get(k)]
     if missing:
@@ -220,11 +251,14 @@ def run(chk, args):
     if selftest == "1" and not chk.violations:
         raise MachineryFault("binding self-test: an altered committed value was not reported")
     chk.cov["schedules_replayed"] = len(schedules)
+    chk.cov["truncations_by_distance_of_farthest_early_written_tx"] = {k.rsplit(":", 1)[1]: v for k, v in sorted(c.items()) if k.startswith("trunc:early-written-tx-at-distance:")}
+    chk.cov["truncations_with_tx_beyond_MaxConcurrency_in_file_below_cut_file"] = c.get("trunc:tx-beyond-MaxConcurrency-in-file-below-cut-file", 0)
     chk.cov["model_drift_notes"] = drift
     chk.cov["rule"] = ("one trace per replayed schedule (TLC counterexample or simulated behaviour, every step compared), per database run, per free run, "
                        "per concurrent-truncation configuration; evaluations = transactions validated (all entries, all read paths)")
     chk.assumptions += [
-        "value units of 32 bytes, chunk files of F units (file size 64..96 bytes on the replayed stores); 1..3 value logs",
+        "value units of 32 bytes, chunk files of F units (file size 64..96 bytes on the replayed stores); 1..3 value logs; MaxConcurrency 2, 3, (4,) 16 "
+        "and MaxActiveTransactions = MaxConcurrency + 1; a tx written early gets its id up to D = 5 (thorough 6) ids after the cut",
         "replayed schedules run TruncateUptoTx / ExportTx as one step (committers parked at the ValuesAppended gate across them); the finer "
         "interleavings (a committer between the walks and the discards) are covered by TLC and by the free-running part only",
         "the value log a committer gets is steered through the store's own unlocked-list discipline (reads move a log to the back of the list)",
